@@ -521,3 +521,10 @@ class EvolveJudge(Judge):
                 continue
             if proj != exp['v']:
                 self.violation(None, 'receiver view differs from the one the guide promises: ' + what, ctx, proj)
+                continue
+            # what the message leaves unset reads as the receiver's declared default
+            from wire import unset_defaults
+            wrong = unset_defaults(rcv['binder'], rroot, out[1])
+            if wrong:
+                self.violation('unset_default', 'a field the message leaves unset reads %s instead of its declared default (%s): %s'
+                               % (wrong[0][2], wrong[0][0], what), ctx)
